@@ -19,10 +19,10 @@ Definition w_S14 : json :=
 (* former S4 witness (repaired): a dynamic array with an unknown property and no element field type *)
 Definition w_S4 : json :=
   JObj [("class", JStr "dynamic-array"); ("zz", JInt 1)].
-(* S19: size 8.0 (a float) *)
+(* former S19 witness (repaired): size 8.0 (a float) *)
 Definition w_S18 : json :=
   JObj [("class", JStr "uint"); ("size", JFloat (FFin 8 1))].
-(* enumeration with null mappings *)
+(* former witness (repaired): enumeration with null mappings *)
 Definition w_enum_null : json :=
   JObj [("class", JStr "uenum"); ("size", JInt 8); ("mappings", JNull)].
 (* former witness (repaired): structure member whose name is not an identifier *)
@@ -40,7 +40,8 @@ Definition cfg_of (trace_extra : list (string * json)) (dst_name : string) (dst_
                           ("data-stream-types",
                            JObj [(dst_name, JObj (dst_extra ++ [("event-record-types", JObj [("e", ert1)])]))])])]))].
 
-(* S3: total size field type (8 bits) narrower than the content size field type (16 bits) *)
+(* former S3 witness (repaired in Python, /repo ef9d952: the schemas still accept it, `_create_dst`
+   refuses it): total size field type (8 bits) narrower than the content size field type (16 bits) *)
 Definition w_S3 : json :=
   cfg_of [] "d"
     [("$features", JObj [("packet", JObj [("total-size-field-type", JObj [("class", JStr "uint"); ("size", JInt 8)]);
@@ -58,8 +59,8 @@ Proof. intros H. exists 200. exact H. Qed.
 
 Lemma w_S14_rejected : validate S3 200 (SRef K_ft) w_S14 = Invalid. Proof. vm_compute. reflexivity. Qed.
 Lemma w_S4_rejected : validate S3 200 (SRef K_ft) w_S4 = Invalid. Proof. vm_compute. reflexivity. Qed.
-Lemma w_S18_valid : VK K_ft w_S18. Proof. apply VK_eval. vm_compute. reflexivity. Qed.
-Lemma w_enum_null_valid : VK K_ft w_enum_null. Proof. apply VK_eval. vm_compute. reflexivity. Qed.
+Lemma w_S18_rejected : validate S3 200 (SRef K_ft) w_S18 = Invalid. Proof. vm_compute. reflexivity. Qed.
+Lemma w_enum_null_rejected : validate S3 200 (SRef K_ft) w_enum_null = Invalid. Proof. vm_compute. reflexivity. Qed.
 Lemma w_member_rejected : validate S3 200 (SRef K_ft) w_member = Invalid. Proof. vm_compute. reflexivity. Qed.
 Lemma w_S3_valid : VK K_config w_S3. Proof. apply VK_eval. vm_compute. reflexivity. Qed.
 Lemma w_trace_prop_rejected : validate S3 200 (SRef K_config) w_trace_prop = Invalid. Proof. vm_compute. reflexivity. Qed.
@@ -95,18 +96,6 @@ Ltac by_class H :=
   destruct H as [[C H]|[[C H]|[[C H]|[[C H]|[[C H]|[[C H]|[[C H]|[[C H]|[C H]]]]]]]]];
   try wrong_class; clear C.
 
-Lemma w_S18_not_doc : ~ ft_doc true w_S18.
-Proof.
-  unfold w_S18. intros H. by_class H.
-  destruct H as (m & E & _ & (x & L & z & Ez & _) & _). injection E as <-.
-  injection L as <-. discriminate Ez.
-Qed.
-Lemma w_enum_null_not_doc : ~ ft_doc true w_enum_null.
-Proof.
-  unfold w_enum_null. intros H. by_class H.
-  destruct H as (m & E & _ & _ & _ & _ & (x & L & M) & _). injection E as <-. injection L as <-.
-  destruct M as [[F _]|(mm & F & _)]; discriminate F.
-Qed.
 
 Lemma w_S3_not_doc : ~ doc_total_ge_content w_S3.
 Proof.
